@@ -105,7 +105,9 @@ func CompareConfigs(old, new *ucfg.Config, opts ...ucfg.Option) Diff {
 	}
 
 	for _, nk := range newKeys {
-		if _, ok := difference[nk]; ok {
+		// only a key of the old configuration can be kept; a key the new
+		// configuration lists twice was put into the map as added a moment ago
+		if t, ok := difference[nk]; ok && t != Add {
 			difference[nk] = Keep
 		} else {
 			difference[nk] = Add
